@@ -123,6 +123,11 @@ class NdModel:
             raise Unsupported("array item assignment other than a[...] = v")
         if isinstance(v, SRef) and v.cls == "ndarray":
             nv = h.get("ndarray", "val", v.ref)
+            # NumPy: the value must have the target's shape or broadcast to it, otherwise ValueError
+            so, sv = h.get("ndarray", "shape", o.ref), h.get("ndarray", "shape", v.ref)
+            fits = z3.Or(so == sv, BSHAPE(sv, so) == so)
+            if not interp.truth(fits):
+                raise SymRaise(ExcInst(ValueError, ("could not broadcast input array into shape",)))
         else:
             nv = to_z3(v)
             if z3.is_int(nv):
